@@ -453,3 +453,86 @@ def check_not_positional(rep, ctx, rule, key, anchor_body, ctx_adt, param_idx, w
              "required to be sorted, so an out-of-range element elsewhere in it is not refused" % (what, where_of(f, *bad[0]))),
             where_of(f, *bad[0]) if bad else anchor_body.span)
     return g
+
+
+# ---------------------------------------------------------------------------------------------------------
+# R5a: a refusal by abort
+PANICS = ("panic", "panic_fmt", "begin_panic", "assert_failed", "panic_display", "panic_str", "unreachable_display", "expect_failed",
+          "unwrap_failed")
+
+
+def check_abort(rep, ctx, rule, key, anchor_body, ctx_adt, starts, what):
+    """some abort (an explicit panic / failed `assert!`) in the entry point's scope is nested under a test of a value
+    derived from `starts`: the request that the code refuses by aborting is still refused. Returns #abort sites."""
+    from ..flow import Graph, ALIAS
+    f = ctx.facts
+    g = Graph(f, f.closure([anchor_body.id], ctx_adt), [anchor_body.id], ctx_adt)
+    starts = [s_ for s_ in starts if (s_[1] if isinstance(s_, tuple) and s_ and s_[0] == "STATE" else s_) in g.fwd]
+    reached = {st[0] for st in g.reach(starts, kinds=(DATA, ALIAS))} if starts else set()
+    n = 0
+    good = None
+    for bid in sorted(g.scope):
+        b = f.bodies[bid]
+        for i, t in b.calls():
+            if b.blocks[i]["cleanup"] or (t.get("callee") or "").rsplit("::", 1)[-1] not in PANICS:
+                continue
+            n += 1
+            for c in _nesting_conditions(b, i):
+                tt = b.blocks[c]["term"]
+                if tt["k"] in ("switch", "assert") and tt["op"]["k"] in ("copy", "move") and (bid, tt["op"]["pl"]["l"]) in reached:
+                    good = good or t["span"]
+    rep.add(rule, "%s:aborts-on:%s" % (key, what.replace(" ", "-")), good is not None,
+            ("the abort at %s is conditioned on %s" % (good, what)) if good else
+            ("no abort in %s is conditioned on %s (%d abort sites examined): the request that used to be refused by an "
+             "assertion is now answered" % (short(anchor_body.id), what, n)), anchor_body.span)
+    return n
+
+
+# ---------------------------------------------------------------------------------------------------------
+# R5f: the request reaches the admission and the keys unfiltered
+DROPPERS = ("retain", "retain_mut", "filter", "filter_map", "take_while", "skip_while", "truncate", "drain", "split_off", "pop",
+            "take", "skip", "step_by", "swap_remove", "remove", "extract_if", "drain_filter")
+
+
+def check_unfiltered(rep, ctx, rule, key, anchor_body, ctx_adt, param_idx, what):
+    """no element-dropping operation is applied to (a copy / view of) the request list before it is judged and used:
+    `v.retain(|b| *b <= cap)` in front of an "unsupported bound" refusal makes that refusal dead and silently answers a
+    request that had to be refused. `sort` / `dedup` keep every distinct element and are fine."""
+    from ..flow import Graph
+    f = ctx.facts
+    g = Graph(f, f.closure([anchor_body.id], ctx_adt), [anchor_body.id], ctx_adt)
+    # views and copies of the list: container-preserving moves plus `to_vec` / `clone` / `unwrap` / `map` over the Option
+    seen = {(anchor_body.id, param_idx)}
+    dq = deque(seen)
+    COPY = ("to_vec", "clone", "to_owned", "unwrap", "expect", "as_ref", "as_deref", "map", "unwrap_or_default", "cloned", "into",
+            "as_slice", "deref", "deref_mut", "as_mut", "iter", "into_iter", "collect", "sorted", "branch", "ok_or")
+    while dq:
+        n = dq.popleft()
+        for e in g.fwd.get(n, ()):
+            if e.kind != DATA or e.dst == OUTCOME or e.dst in seen:
+                continue
+            ok = e.op in (MOVE, "field", "hof") or (e.op == "foreign" and LG._is_result_edge(g, e) and
+                                                     (LG._callee_name(g, e) in COPY or LG._callee_name(g, e) in LG.CONTAINER_PRESERVING))
+            if ok and isinstance(e.dst, tuple) and len(e.dst) == 2:
+                seen.add(e.dst)
+                dq.append(e.dst)
+    bad = None
+    for bid in sorted(g.scope):
+        b = f.bodies[bid]
+        for i, t in b.calls():
+            nm = (t.get("callee") or "").rsplit("::", 1)[-1]
+            if nm in DROPPERS and t["args"] and t["args"][0]["k"] in ("copy", "move") and not b.blocks[i]["cleanup"]:
+                a0 = t["args"][0]["pl"]["l"]
+                if "option::Option" in (t.get("callee") or "") or (b.locals[a0]["ty"] or "").lstrip("&mut ").startswith("std::option::Option<"):
+                    continue      # `Option::filter` / `Option::take` on the optional list as a whole drop no element of it
+                roots = {a0}
+                for blk in b.blocks:
+                    for st in blk["stmts"]:
+                        if st["dst"]["l"] in roots and st["rv"].get("k") == "ref":
+                            roots.add(st["rv"]["pl"]["l"])
+                if any((bid, r) in seen for r in roots) and bad is None:
+                    bad = (nm, t["span"])
+    rep.add(rule, "%s:request-unfiltered:%s" % (key, what.replace(" ", "-")), bad is None,
+            ("no element-dropping operation is applied to the %s before they are judged and used" % what) if bad is None else
+            ("`%s` at %s drops elements of the %s before they are judged: what it drops is neither refused nor served" % (bad[0], bad[1], what)),
+            bad[1] if bad else anchor_body.span)
